@@ -378,6 +378,7 @@ func writeEvidence(pc *PropConfig, tier string, seed int, res *propResult, wall 
 		"assumed contracts in /verif/trusted/*.spec and interface/field contracts in the contract files (listed under assumed_contracts)",
 		"machine integers treated as mathematical integers; float64 as reals; strings as uninterpreted identifiers",
 		"errgroup.Group.Go(f) executed synchronously (fork/join only); sync.Mutex as no-op; data-race freedom not verified",
+		"map length as an uninterpreted cardinality with insert/delete/empty axioms and the finite-set lemma (equal cardinality + subset => equal)",
 	}
 	cov["known_findings_hit"] = knownHit
 	if len(pc.Bounded) > 0 {
